@@ -665,6 +665,112 @@ def sym_int_bv(name, lo, hi):
     return SInt(z3.BV2Int(v, is_signed=True), v, lo >= 0)
 
 
+class SReal:
+    """symbolic float, modelled as an exact rational (z3 Real).  Faithful for the short
+    decimal literals and the comparisons / sorting the checked code performs; arithmetic
+    rounding is not modelled (stated in the evidence of the checks that use it)."""
+
+    __slots__ = ("e",)
+
+    def __init__(self, e):
+        self.e = e
+
+    def __repr__(self):
+        return f"SReal({self.e})"
+
+    __hash__ = None
+
+    @staticmethod
+    def lift(o):
+        if isinstance(o, SReal):
+            return o.e
+        if isinstance(o, bool):
+            return z3.RealVal(int(o))
+        if isinstance(o, int):
+            return z3.RealVal(o)
+        if isinstance(o, float):
+            from fractions import Fraction
+
+            if o != o or o in (float("inf"), float("-inf")):
+                return None
+            f = Fraction(repr(o)) if "e" not in repr(o) and "E" not in repr(o) else Fraction(o)
+            return z3.RealVal(str(f))
+        if isinstance(o, SInt):
+            return z3.ToReal(o.e)
+        if isinstance(o, SBool):
+            return z3.ToReal(zi(o))
+        return None
+
+    def _cmp(self, o, f):
+        oe = SReal.lift(o)
+        if oe is None:
+            return NotImplemented
+        return mk_bool(f(self.e, oe))
+
+    def __lt__(self, o):
+        return self._cmp(o, lambda a, b: a < b)
+
+    def __le__(self, o):
+        return self._cmp(o, lambda a, b: a <= b)
+
+    def __gt__(self, o):
+        return self._cmp(o, lambda a, b: a > b)
+
+    def __ge__(self, o):
+        return self._cmp(o, lambda a, b: a >= b)
+
+    def __eq__(self, o):
+        oe = SReal.lift(o)
+        if oe is None:
+            return False
+        return mk_bool(self.e == oe)
+
+    def __ne__(self, o):
+        return snot(self.__eq__(o))
+
+    def __bool__(self):
+        return ctx().decide(self.e != 0)
+
+    def _arith(self, o, f):
+        oe = SReal.lift(o)
+        if oe is None:
+            return NotImplemented
+        r = z3.simplify(f(self.e, oe))
+        return SReal(r)
+
+    def __add__(self, o):
+        return self._arith(o, lambda a, b: a + b)
+
+    __radd__ = __add__
+
+    def __sub__(self, o):
+        return self._arith(o, lambda a, b: a - b)
+
+    def __rsub__(self, o):
+        return self._arith(o, lambda a, b: b - a)
+
+    def __mul__(self, o):
+        return self._arith(o, lambda a, b: a * b)
+
+    __rmul__ = __mul__
+
+    def __neg__(self):
+        return SReal(-self.e)
+
+    def __float__(self):
+        raise Unsupported("float() of a symbolic real handed to native code")
+
+
+def sym_real(name, lo=None, hi=None):
+    c = ctx()
+    v = z3.Real(name)
+    if lo is not None:
+        c.add(v >= lo)
+    if hi is not None:
+        c.add(v <= hi)
+    return SReal(v)
+
+
 def smin(*a, **kw):
     if len(a) == 1:
         a = tuple(a[0])
